@@ -316,13 +316,20 @@ func checkRelocate(w *core.Worker, rr *core.Rand, u []byte, big []byte) {
 		finding = "D16"
 	}
 	fail := func(cls, what string, d map[string]any) {
-		w.FailF(cls, finding, func() *core.Violation {
+		// D16 (known) is exactly: tel: text containing '@' => components out of textual
+		// order => Long()/Short() wrong. Only the view clauses are attributed to it; a
+		// relocation failure on such a URI is a different violation and is reported.
+		fnd := ""
+		if cls == "views" || cls == "relocated-views" {
+			fnd = finding
+		}
+		w.FailF(cls, fnd, func() *core.Violation {
 			if d == nil {
 				d = map[string]any{}
 			}
 			d["parsed"] = fmt.Sprintf("%+v", p)
 			v := core.V(what, u, d)
-			v.Finding = finding
+			v.Finding = fnd
 			return v
 		})
 	}
@@ -383,10 +390,22 @@ func checkRelocate(w *core.Worker, rr *core.Rand, u []byte, big []byte) {
 						t2 := (t*7 + 13) % (65535 - n)
 						q2 := q
 						var ok2 bool
-						pan2, pmsg2, _ := core.Guard(func() { ok2 = q2.AdjustOffs(sipsp.PField{Offs: sipsp.OffsT(t2), Len: sipsp.OffsT(n)}) })
+						// the second move uses the shortest, a slightly longer and the longest admissible span
+						span2 := []int{n, n + 1, 65535 - t2}[t%3]
+						pan2, pmsg2, _ := core.Guard(func() { ok2 = q2.AdjustOffs(sipsp.PField{Offs: sipsp.OffsT(t2), Len: sipsp.OffsT(span2)}) })
 						if pan2 || !ok2 {
-							fail("relocate-twice", fmt.Sprintf("URI %q relocated to %d cannot be relocated again to {%d,%d}: ok=%v panic=%q", u, t, t2, n, ok2, pmsg2), d)
+							fail("relocate-twice", fmt.Sprintf("URI %q relocated to %d cannot be relocated again to {%d,%d}: ok=%v panic=%q", u, t, t2, span2, ok2, pmsg2), d)
 							return
+						}
+						// and a too short second span must be refused without changes
+						if n > 0 {
+							q3 := q
+							var ok3 bool
+							pan3, _, _ := core.Guard(func() { ok3 = q3.AdjustOffs(sipsp.PField{Offs: sipsp.OffsT(t2), Len: sipsp.OffsT(n - 1)}) })
+							if pan3 || ok3 || q3 != q {
+								fail("relocate-twice-too-short", fmt.Sprintf("URI %q (len %d) relocated to %d, then AdjustOffs({%d,%d}): ok=%v panic=%v changed=%v", u, n, t, t2, n-1, ok3, pan3, q3 != q), d)
+								return
+							}
 						}
 						copy(big[t2:], u)
 						nf2 := []sipsp.PField{q2.Scheme, q2.User, q2.Pass, q2.Host, q2.Port, q2.Params, q2.Headers}
